@@ -87,6 +87,51 @@ impl JsVal {
             JsVal::CyclicArr => json!({"t":"cycarr"}),
         }
     }
+    /// inverse of `to_tagged` for what the worker's `encode` produces (None for shapes it cannot carry)
+    pub fn from_tagged(v: &Value) -> Option<JsVal> {
+        let t = v.get("t")?.as_str()?;
+        Some(match t {
+            "u" => JsVal::Undef,
+            "n" => JsVal::Null,
+            "b" => JsVal::Bool(v.get("v")?.as_bool()?),
+            "num" => match (v.get("s").and_then(|x| x.as_str()), v.get("v")) {
+                (Some(s), _) => JsVal::Num(s.to_string()),
+                (None, Some(n)) => JsVal::Num(n.to_string()),
+                _ => return None,
+            },
+            "s" => JsVal::Str(v.get("v")?.as_str()?.to_string()),
+            "big" => JsVal::BigInt(v.get("v")?.as_str()?.to_string()),
+            "date" => JsVal::Date(v.get("v").and_then(|x| x.as_i64())),
+            "arr" => JsVal::Arr(v.get("v")?.as_array()?.iter().map(JsVal::from_tagged).collect::<Option<Vec<_>>>()?),
+            "obj" => {
+                let proto = match v.get("proto").and_then(|x| x.as_str()) {
+                    Some("null") => Proto::Null,
+                    Some("class") => Proto::Class,
+                    _ => Proto::Plain,
+                };
+                let mut kv = vec![];
+                for e in v.get("v")?.as_array()? {
+                    kv.push((e.get(0)?.as_str()?.to_string(), JsVal::from_tagged(e.get(1)?)?));
+                }
+                JsVal::Obj(kv, proto)
+            }
+            "map" => {
+                let mut kv = vec![];
+                for e in v.get("v")?.as_array()? {
+                    kv.push((JsVal::from_tagged(e.get(0)?)?, JsVal::from_tagged(e.get(1)?)?));
+                }
+                JsVal::Map(kv)
+            }
+            "set" => JsVal::Set(v.get("v")?.as_array()?.iter().map(JsVal::from_tagged).collect::<Option<Vec<_>>>()?),
+            "ta" => {
+                let k = crate::den::TYPED_ARRAYS.iter().position(|n| Some(*n) == v.get("k").and_then(|x| x.as_str()))?;
+                JsVal::TypedArr(k, v.get("v")?.as_array()?.iter().map(|x| x.as_i64().unwrap_or(0) as i32).collect())
+            }
+            "fn" => JsVal::Func,
+            "sym" => JsVal::Sym,
+            _ => return None,
+        })
+    }
     /// plain JSON (for the JSON-document properties C02/C16); None if not a JSON value
     pub fn to_json(&self) -> Option<Value> {
         Some(match self {
@@ -474,4 +519,40 @@ pub fn inject_extra_key(v: &JsVal, s: &mut Src) -> JsVal {
     let key = s.pick(&["z", "extra", "a", "b", "c", "k", "constructor", "__proto__", "toString", "0"]).to_string();
     let val = arbitrary_leaf(s);
     go(v, &mut target, &key, &val)
+}
+
+/// `v` with the property `key: 1` added to one randomly chosen plain object inside it (also inside arrays, Map values
+/// and Set items); `v` itself when it contains no object
+pub fn inject_key(v: &JsVal, s: &mut Src, key: &str) -> JsVal {
+    fn count(v: &JsVal) -> usize {
+        match v {
+            JsVal::Obj(kv, _) => 1 + kv.iter().map(|(_, x)| count(x)).sum::<usize>(),
+            JsVal::Arr(xs) | JsVal::Set(xs) => xs.iter().map(count).sum(),
+            JsVal::Map(kv) => kv.iter().map(|(_, x)| count(x)).sum(),
+            _ => 0,
+        }
+    }
+    fn go(v: &JsVal, target: &mut isize, key: &str) -> JsVal {
+        match v {
+            JsVal::Obj(kv, p) => {
+                let here = *target == 0;
+                *target -= 1;
+                let mut kv2: Vec<(String, JsVal)> = kv.iter().map(|(k, x)| (k.clone(), go(x, target, key))).collect();
+                if here && !kv2.iter().any(|(k, _)| k == key) {
+                    kv2.push((key.to_string(), JsVal::num("1")));
+                }
+                JsVal::Obj(kv2, p.clone())
+            }
+            JsVal::Arr(xs) => JsVal::Arr(xs.iter().map(|x| go(x, target, key)).collect()),
+            JsVal::Set(xs) => JsVal::Set(xs.iter().map(|x| go(x, target, key)).collect()),
+            JsVal::Map(kv) => JsVal::Map(kv.iter().map(|(k, x)| (k.clone(), go(x, target, key))).collect()),
+            other => other.clone(),
+        }
+    }
+    let n = count(v);
+    if n == 0 {
+        return v.clone();
+    }
+    let mut target = s.below(n) as isize;
+    go(v, &mut target, key)
 }
